@@ -16,3 +16,47 @@ def register(reg, repo):
     reg.add(C("debug.dump", modifies=[], post=[], xpost=None, trusted=True,
               note="debug.dump(state): calls state.dump(); diagnostic only"))
     reg.add(C("debug.get_frame", modifies=[], post=[], xpost=None, trusted=True, pure_fn="get_frame"))
+    register_c18(reg, repo)
+
+
+def register_c18(reg, repo):
+    """C18: filter_traceback and the totality of the diagnostics."""
+    from pyvc.contract import Contract as C
+    MATCHED = "all(contains(tb_list[int(i) + k], text_to_match[k]) for k in range(0, len(text_to_match)))"
+    reg.pyfuncs["contains"] = _contains
+    reg.add(C("debug.filter_traceback",
+              types={"tb_list": "list", "tb_list[]": "str", "output": "list", "text_to_match": "list", "text_to_match[]": "str",
+                     "replacement": "str", "REPLACEMENTS": "list", "REPLACEMENTS[]": "tuple",
+                     "TASK_CONTINUE": "tuple", "FUTURE_BASE": "tuple", "CALL_PURE": "tuple", "i": "int", "j": "int"},
+              modifies=["$alloc"],
+              post=["exact(result, list)", "fresh(result)", "len(result) <= len(tb_list)",
+                    "len(tb_list) == old(len(tb_list))"],
+              xpost=None,
+              invariants={
+                  1: ["0 <= int(i) and int(i) <= len(tb_list)", "exact(output, list)", "len(output) <= int(i)", "output is pre(output)",
+                      "exact(REPLACEMENTS, list) and len(REPLACEMENTS) == 3",
+                      "all(tlen(REPLACEMENTS[r]) == 2 and exact(titem(REPLACEMENTS[r], 0), list) and len(titem(REPLACEMENTS[r], 0)) >= 1 "
+                      "for r in range(0, 3))",
+                      "REPLACEMENTS is pre(REPLACEMENTS)"],
+                  2: ["_it2 is REPLACEMENTS", "0 <= int(_i2) and int(_i2) <= 3", "did_replacement == False",
+                      "0 <= int(i) and int(i) < len(tb_list)", "int(i) == pre(int(i))",
+                      "exact(output, list)", "len(output) <= int(i)", "output is pre(output)", "len(output) == pre(len(output))",
+                      "exact(REPLACEMENTS, list) and len(REPLACEMENTS) == 3",
+                      "all(tlen(REPLACEMENTS[r]) == 2 and exact(titem(REPLACEMENTS[r], 0), list) and len(titem(REPLACEMENTS[r], 0)) >= 1 "
+                      "for r in range(0, 3))"],
+                  3: ["0 <= int(j) and int(j) <= len(text_to_match)", "matches == True or matches == False",
+                      "implies(matches, all(contains(tb_list[int(i) + k], text_to_match[k]) for k in range(0, int(j))))",
+                      "implies(matches, int(i) + int(j) <= len(tb_list))",
+                      "exact(text_to_match, list) and len(text_to_match) >= 1"],
+              },
+              labels={"loop_mutates": {1: ["output"], 2: ["output"]},
+                      "site_requires": {"output.append": ["implies(did_replacement == False and matches == True and int(j) == len(text_to_match), " + MATCHED + ")"]},
+                      ("post", 2): "never-longer-than-input"},
+              note="a marker line is appended only when every line of the run contains the corresponding pattern of ONE replacement "
+                   "(site obligation at output.append); lines are opaque, `in` on strings is an uninterpreted containment predicate"))
+
+
+def _contains(env, hay, needle):
+    from pyvc.exprs import STR_CONTAINS
+    from pyvc.spec import as_v
+    return STR_CONTAINS(as_v(hay), as_v(needle))
